@@ -1,7 +1,7 @@
 (* c20_driver.ml — runs the extracted model LocalTab.v on the C20 case protocol (see harness/c20.c).
    Input:  S <ed> <cat> <catdesc hex|-> <nB> {<desc> <name hex|-> <unit hex|-> <scale> <ref> <width>}.. <nD> {<desc> <n> <d>..}..
            T0                      (prints the master-table entries the model assumes, for comparison with /repo/Tables)
-   Output: "S s3=<d,d,..> s4=<hex> rc=<0|-1|-3> [EXTR cat=<n> cdesc=<hex|-> nb=<n> {B <desc>:<name>:<unit>:<scale>:<ref>:<width>:<type>:<af>:<refnb>}.. nd=<n> {D <desc>:<d,d,..>}..]" *)
+   Output: "S s3=<d,d,..> s4=<hex> rc=<0|-1|-3> [vt=<desc>:<value type>,..] [EXTR cat=<n> cdesc=<hex|-> nb=<n> {B <desc>:<name>:<unit>:<scale>:<ref>:<width>:<type>:<af>:<refnb>}.. nd=<n> {D <desc>:<d,d,..>}..]" *)
 let str_of_hex (h : string) : n list = if h = "-" then [] else bytes_of_hex h
 let hex_or_dash (l : n list) : string = if l = [] then "-" else hex_of_bytes l
 let rec rtrim_blanks (l : n list) : n list =
@@ -61,7 +61,11 @@ let do_s toks =
           Printf.printf "S s3=%s s4=%s" (String.concat "," (List.map (fun d -> string_of_int (int_of_z d)) s3)) (hex_of_bytes bytes);
           (match decode_elements (zs ed) s3 bytes with
            | None -> print_string " rc=-3\n"
-           | Some els -> Printf.printf " rc=0 EXTR%s\n" (dump_tables (extract (Z0, Z0) els)))))
+           | Some els ->
+             (* vt: the value type bufr_encoding_to_valtype gives each original entry (0 int32, 1 int64, 2 double, 3 string) *)
+             Printf.printf " rc=0 vt=%s EXTR%s\n"
+               (if t.lt_B = [] then "-" else String.concat "," (List.map (fun e -> Printf.sprintf "%d:%d" (int_of_z e.lb_desc) (int_of_z (vtype_code (entry_valtype e)))) t.lt_B))
+               (dump_tables (extract (Z0, Z0) els)))))
   | _ -> failwith "S"
 let do_t0 () =
   let b = Buffer.create 256 in
